@@ -6,5 +6,7 @@ INVARIANT InvWeights
 INVARIANT InvClamped
 INVARIANT InvBroadcast
 INVARIANT InvBoundsOrdered
+INVARIANT InvRelativeRange
+INVARIANT InvScaledOrdered
 INVARIANT InvEmit
 CHECK_DEADLOCK FALSE
